@@ -60,11 +60,17 @@ def specEq (cx : Ctx) (line : String) (r : RObs) : List String :=
     match c.toNat?, rr.toNat?, parseList l with
     | some c, some rr, some l =>
       if r.status ≠ "ok" then [] else
-      let same := decide (c = cx.prev.c ∧ rr = cx.prev.r ∧ cx.vs l = cx.prev.data)
+      -- "dimensions and cells are equal": cell by cell under the element type's own `==`
+      let same := decide (c = cx.prev.c ∧ rr = cx.prev.r ∧ (cx.vs l).length = cx.prev.data.length) &&
+        ((cx.vs l).zip cx.prev.data).all fun (x, y) => cx.elem.eqα y x
       let f1 := if r.toks.head? = some (if same then "1" else "0") then [] else ["C20:eq-must-be-" ++ (if same then "true" else "false")]
       let f2 := if r.toks.head? = some "1" ∧ r.toks.getD 1 "" ≠ "hasheq=1" then ["C20:equal-arrays-hash-differently"] else []
       f1 ++ f2
     | _, _, _ => []
+  | ["@", "eqself"] =>
+    if r.status ≠ "ok" then [] else
+    let same := cx.prev.data.all fun x => cx.elem.eqα x x
+    if r.toks.head? = some (if same then "1" else "0") then [] else ["C20:self-comparison-must-be-" ++ (if same then "true" else "false")]
   | _ => []
 
 def oracle (cx : Ctx) (prev : RObs) (line : String) (robs : Option RObs) : String :=
